@@ -134,7 +134,15 @@ def poison_scenarios(ck, tier):
     for ad in ADAPTERS:
         lat = ad.lattice
         pairs = [(a, b) for a in lat for b in lat if a != b]
-        pairs = [pairs[i] for i in rng.choice(len(pairs), size=min(len(pairs), 10 if tier == "quick" else 60), replace=False)]
+        # the pairs most at risk first, deterministically: A larger than B with the same parameters (B could be "served" by cropping A's
+        # basis or file) and A at least as large with other parameters (A's arrays would fit B's shapes), then random ones
+        crop = [(a, b) for a, b in pairs if tuple(a[1:]) == tuple(b[1:]) and a[0] > b[0]]
+        fits = [(a, b) for a, b in pairs if tuple(a[1:]) != tuple(b[1:]) and a[0] >= b[0]]
+        rot = lambda L, k: (L[seed() % max(1, len(L)):] + L[:seed() % max(1, len(L))])[:k]
+        chosen = list(crop) + rot(fits, 8 if tier == "quick" else 40)
+        rest = [pq for pq in pairs if pq not in chosen]
+        chosen += [rest[i] for i in rng.choice(len(rest), size=min(len(rest), 3 if tier == "quick" else 30), replace=False)]
+        pairs = chosen
         for (A, B) in pairs:
             for kind in (1, 2):
                 for g in glob.glob(os.path.join(d, "*")):
